@@ -447,6 +447,10 @@ impl Ctx {
         let part_failed = self.violations.lock().unwrap().iter().any(|v| v.part == spec_name);
         for (label, floor) in floors.iter().filter(|_| !part_failed) {
             let n = stats.labels.get(label).copied().unwrap_or(0) as f64;
+            if std::env::var("VERIF_FLOORS").is_ok() {
+                // maintenance aid: how far each floor is from what the generator delivers
+                eprintln!("FLOOR {} {} {} floor={:.4} measured={:.4} ratio={:.2}", self.property, spec_name, label, floor, n / ev, (n / ev) / floor.max(1e-9));
+            }
             if n / ev < *floor {
                 self.inconclusive(format!(
                     "generator health: part {} label '{}' at {:.2}% < floor {:.2}% ({} cases)",
